@@ -136,13 +136,13 @@ func (o *object) deleteProperty(name string) {
 	}
 
 	delete(o.property, name)
-	for index, prop := range o.propertyOrder {
-		if name == prop {
-			if index == len(o.propertyOrder)-1 {
-				o.propertyOrder = o.propertyOrder[:index]
-			} else {
-				o.propertyOrder = append(o.propertyOrder[:index], o.propertyOrder[index+1:]...)
-			}
+	// An enumeration (for-in, JSON.parse with a reviver) may be ranging over the current
+	// order list: build a new list instead of shifting the entries of the old one in place.
+	order := make([]string, 0, len(o.propertyOrder))
+	for _, prop := range o.propertyOrder {
+		if name != prop {
+			order = append(order, prop)
 		}
 	}
+	o.propertyOrder = order
 }
